@@ -119,7 +119,7 @@ pub fn prepare<'a>(id: &str, liveness: bool, scn: &'a Scenario, h: &'a History, 
     }
     // real threads: a stop() that needed >= 2.5 s most likely ran into its 3 s timeout; time is
     // never a correctness signal here, the case is set aside
-    if !h.slow.is_empty() {
+    if !h.slow.is_empty() && !scn.long_waits {
         out.inconclusive = Some("slow-op>=2.5s".into());
         return None;
     }
